@@ -248,8 +248,13 @@ def variants(mod, seed, tier):
             yield ('permute', set_at(mod, path, replace(it, template=tmpl)), names)
         # --- rename
         old = r.choice(it.template).name
-        pool = ['Q_' + old, old + 'Zz', 'FRESH', 'X9y', old.lower() + '_t', 'Tq', 'ZZ' + old + 'ZZ']
-        new = next((x for x in pool if x not in idents), None)
+        others = [p.name for p in it.template if p.name != old]
+        pool = ['Q_' + old, old + 'Zz', 'FRESH', 'X9y', old.lower() + '_t', 'Tq', 'ZZ' + old + 'ZZ',
+                # single letters, prefixes / extensions of the other parameters and of the class name, type-like words
+                'T', 'U', 'V', 'W', 'E', 'This1', 'Scalar', 'value_type', it.name[:1], it.name + 'T']
+        pool += [o[:1] for o in others] + [o + 'x' for o in others] + [o[:-1] for o in others if len(o) > 1]
+        pool = [x for x in dict.fromkeys(pool) if x and x not in idents and x != old and re.match(r'^[A-Za-z_]\w*$', x)]
+        new = r.choice(pool) if pool else None
         if new:
             yield ('rename', set_at(mod, path, rename_params(it, {old: new})), None)
 
